@@ -78,6 +78,12 @@ def encoded(b):
     return f.getvalue()
 
 
+def encoded_item(kind, it):
+    """the numbers an item holds, as bytes (to tell two items' data apart)"""
+    attrs = {"D3": ("data",), "EM": ("data",), "FT": ("application_point", "force", "torque"), "EV": ("values",)}[kind]
+    return b"".join(np.ascontiguousarray(np.asarray(getattr(it, a), dtype="<f4")).tobytes() for a in attrs)
+
+
 def exc_name(e):
     for k in type(e).__mro__:
         if k.__name__ in ("KeyError", "IndexError", "TypeError", "ValueError", "AttributeError", "NotImplementedError"):
